@@ -14,7 +14,9 @@ RULE = ("random DSLs (families F1-F3) compiled by the real code into depth-bound
         "patterns) or size-bounded TTCFGs (first-order DSLs, size 3-5); weights uniform / random / skewed 10^-k / with ties / uniform except 1:10^3:10^6 on the deepest non-terminals / half of the function rules at 1e-120 so that program probabilities underflow (also on dedicated depth-4 one-type grammars stored deepest-first or shuffled); "
         "enumerators heap search, bucket search, bee search, beap search, constant-delay search with random parameters.  The "
         "implementation's own rule table and its full output sequence are handed to the verified checker check_enum (membership "
-        "by the model's traversal, duplicate test, length = size of the model's language).  A case is non-trivial when the "
+        "by the model's traversal, duplicate test, length = size of the model's language).  For bee search the harness also records, for "
+        "the first 300 popped index combinations of each run, the combinations pushed for each of them and compares them with the extracted "
+        "Enum/Frontier.children (the abstract expansion the C02_frontier_* theorems are about).  A case is non-trivial when the "
         "language has >= 5 programs and the weights are not uniform.")
 ASSUMPTIONS = ["a run that exceeds the per-case time limit counts as non-termination (limit 12 s; languages have at most 1500 programs); for bee search with non-uniform weights this is the known finding c02_bee_search_blowup and only the produced prefix is checked",
                "unambiguous grammars (u-heap-search, u-bucket-search on UCFG.from_CFG and on sharpened UCFG.from_DFTA grammars with several start symbols): the language list comes from the U-table model (Gram/U.v); that this list is duplicate-free is checked at run time, that it is complete for U tables is not proved (C04 U theorems are partial)"]
@@ -145,4 +147,15 @@ def classify(case, io, mo):
 
 
 def theorem_for(case):
+    if case["enum"] == "bs":
+        return ("C02_checker_exactly_once (check_enum = true <-> NoDup out /\\ (In p out <-> contains p)); termination = the run stops within the "
+                "limit; frontier: pushes of each popped combination = Frontier.children (C02_frontier_unique_parent, C02_frontier_any_order_*)")
     return "C02_checker_exactly_once (check_enum = true <-> NoDup out /\\ (In p out <-> contains p)); termination = the run stops within the limit"
+
+
+def extra_coverage(cases, model_obs):
+    """Measured on this run (last hash seed): how much of the frontier expansion was compared."""
+    runs = [mo for mo in model_obs if mo is not None and "frontier_parents" in mo]
+    return {"frontier_runs_compared": len(runs),
+            "frontier_popped_combinations_compared": sum(mo["frontier_parents"] for mo in runs),
+            "frontier_mismatches": sum(1 for mo in runs if mo.get("frontier_mismatch"))}
